@@ -1,15 +1,17 @@
 package main
 
 import (
+	"fmt"
 	"go/ast"
 	"go/types"
+	"os"
 	"reflect"
 	"strings"
 )
 
 func init() {
 	register(&Property{ID: "C11", Run: runC11,
-		Explain: "RPC splitting decided as exhaustiveness, grow-then-check discipline and gating: (R11.1) on the slow path of RPC.split every wire field of pb.RPC and pb.ControlMessage (enumerated from the struct tags on every run) is both read from the receiver and stored into the fragment being built; sub-messages rebuilt for a new fragment keep their non-split fields (every ControlIHave literal carries the TopicID of the IHAVE being split); copyRPC copies the whole struct and the control message; (R11.2) in the gossipsub router queue pushes happen only in doSendRPC, which is called only by sendRPC; (R11.3) sendRPC sends an RPC unsplit only behind `Size() < maxMessageSize` evaluated after all piggybacking, sends a fragment only behind the false edge of `Size() > maxMessageSize`, drops (and reports) on the true edge, and splits with the same limit; (R11.4) doDropRPC traces DROP_RPC and re-queues the control part; (R11.5) grow-then-check: every statement that adds content to the fragment (append / set) is followed on every path by a `Size() > limit` test before the next growth or yield, the overflow branch removes exactly what was added, yields, and restarts the fragment with that element; every yield result is honoured; a non-empty remainder is yielded at the end; (R11.6) no empty RPC is produced: every direct call of the iterator's consumer is evaluated only when the fragment's Size() is not zero; (R11.3, extended) inside the split loop sendRPC drops exactly the oversized fragment (never the RPC being split, whose control part the lazy iterator is still reading) and the loop over the fragments has no early exit. NOT decided: that fragments fit the limit and carry each element exactly once and in order as an arithmetic fact per input (Size() arithmetic and slice bookkeeping).",
+		Explain: "RPC splitting decided as exhaustiveness, grow-then-check discipline and gating: (R11.1) on the slow path of RPC.split every wire field of pb.RPC and pb.ControlMessage (enumerated from the struct tags on every run) is both read from the receiver and stored into the fragment being built; sub-messages rebuilt for a new fragment keep their non-split fields (every ControlIHave literal carries the TopicID of the IHAVE being split); copyRPC copies the whole struct and the control message; (R11.2) in the gossipsub router queue pushes happen only in doSendRPC, which is called only by sendRPC; (R11.3) sendRPC sends an RPC unsplit only behind `Size() < maxMessageSize` evaluated after all piggybacking, sends a fragment only behind the false edge of `Size() > maxMessageSize`, drops (and reports) on the true edge, and splits with the same limit; (R11.4) doDropRPC traces DROP_RPC and re-queues the control part; (R11.5) grow-then-check: every statement that adds content to the fragment (append / set) is followed on every path by a `Size() > limit` test before the next growth or yield, the overflow branch removes exactly what was added, yields, and restarts the fragment with that element; every yield result is honoured; a non-empty remainder is yielded at the end; (R11.6) no empty RPC is produced: every direct call of the iterator's consumer is evaluated only when the fragment's Size() is not zero; (R11.3, extended) inside the split loop sendRPC drops exactly the oversized fragment (never the RPC being split, whose control part the lazy iterator is still reading) and the loop over the fragments has no early exit. (audit round) R11.6 judges emptiness by content: the guard is a predicate reading messages, subscriptions and all five control lists; (R11.7) the hello packet is split or size-tested before it is written (known finding F37). NOT decided: that fragments fit the limit and carry each element exactly once and in order as an arithmetic fact per input (Size() arithmetic and slice bookkeeping).",
 		Assume:  []string{"gogo-generated Size() is exact", "struct tags `protobuf:` mark exactly the wire fields"},
 		Mutants: []Mutant{
 			{Name: "split-drops-idontwant", File: "pubsub.go", Old: "\t\t\tfor _, idontwant := range ctl.GetIdontwant() {", New: "\t\t\tfor _, idontwant := range []*pb.ControlIDontWant(nil) {", Expect: "R11.1"},
@@ -22,7 +24,9 @@ func init() {
 			{Name: "sendrpc-oversized-fragment-sent", File: "gossipsub.go", Old: "\t\t\tgs.doDropRPC(&rpc, p, fmt.Sprintf(\"Dropping oversized RPC. Size: %d, limit: %d. (Over by %d bytes)\", rpc.Size(), gs.p.maxMessageSize, rpc.Size()-gs.p.maxMessageSize))\n\t\t\tcontinue\n", New: "\t\t\tgs.doDropRPC(&rpc, p, fmt.Sprintf(\"Dropping oversized RPC. Size: %d, limit: %d. (Over by %d bytes)\", rpc.Size(), gs.p.maxMessageSize, rpc.Size()-gs.p.maxMessageSize))\n", Expect: "R11.3"},
 			{Name: "split-other-limit", File: "gossipsub.go", Old: "\tfor rpc := range out.split(gs.p.maxMessageSize) {", New: "\tfor rpc := range out.split(gs.p.maxMessageSize * 2) {", Expect: "R11.3"},
 			{Name: "dropRPC-no-retry", File: "gossipsub.go", Old: "\tctl := rpc.GetControl()\n\tif ctl != nil {\n\t\tgs.pushControl(p, ctl)\n\t}\n}", New: "}", Expect: "R11.4"},
-			{Name: "split-yields-empty", File: "pubsub.go", Old: "\t\tyield := func(r RPC) bool { return r.Size() == 0 || yieldRPC(r) }", New: "\t\tyield := func(r RPC) bool { return yieldRPC(r) }", Expect: "R11.6"},
+			{Name: "split-yields-empty", File: "pubsub.go", Old: "\t\tyield := func(r RPC) bool { return !r.hasContent() || yieldRPC(r) }", New: "\t\tyield := func(r RPC) bool { return yieldRPC(r) }", Expect: "R11.6"},
+			{Name: "split-empty-judged-by-size", File: "pubsub.go", Old: "\t\tyield := func(r RPC) bool { return !r.hasContent() || yieldRPC(r) }", New: "\t\tyield := func(r RPC) bool { return r.Size() == 0 || yieldRPC(r) }", Expect: "R11.6"},
+			{Name: "content-test-forgets-idontwant", File: "pubsub.go", Old: "\tfor _, idontwant := range ctl.Idontwant {\n\t\tif len(idontwant.MessageIDs) > 0 {\n\t\t\treturn true\n\t\t}\n\t}\n\treturn false\n", New: "\treturn false\n", Expect: "R11.6"},
 			{Name: "drop-whole-rpc", File: "gossipsub.go", Old: "\t\t\tgs.doDropRPC(&rpc, p, fmt.Sprintf(\"Dropping oversized", New: "\t\t\tgs.doDropRPC(out, p, fmt.Sprintf(\"Dropping oversized", Expect: "R11.3"},
 			{Name: "drop-ends-iteration", File: "gossipsub.go", Old: "rpc.Size()-gs.p.maxMessageSize))\n\t\t\tcontinue\n", New: "rpc.Size()-gs.p.maxMessageSize))\n\t\t\treturn\n", Expect: "R11.3"},
 			{Name: "split-control-header-unchecked", File: "pubsub.go", Old: "\t\t\t\tnextRPC.Control = &pb.ControlMessage{}\n\t\t\t\tif nextRPC.Size() > limit {\n\t\t\t\t\tnextRPC.Control = nil\n\t\t\t\t\tif !yield(nextRPC) {\n\t\t\t\t\t\treturn\n\t\t\t\t\t}\n\t\t\t\t\tnextRPC = RPC{RPC: pb.RPC{Control: &pb.ControlMessage{}}, from: rpc.from}\n\t\t\t\t}\n", New: "\t\t\t\tnextRPC.Control = &pb.ControlMessage{}\n", Expect: "R11.5"},
@@ -542,11 +546,77 @@ func runC11(c *RuleCtx) {
 		// R11.6 no empty RPC is produced: every direct call of the consumer is evaluated only when the fragment's
 		// Size() is not zero — by a dominating test, or as the right operand of `Size() == 0 ||` / `Size() > 0 &&`
 		{
+			// "empty" is judged by content, not by size: a fragment that holds nothing but an empty control
+			// message (or control entries listing no message ID) has a non-zero Size(). The guard must be a
+			// content predicate: a bool function of the fragment that looks at the messages, the subscriptions
+			// and every list of the control message; its polarity is read off its own returns.
+			contentFields := []string{"pb.RPC.Publish", "pb.RPC.Subscriptions", "pb.ControlMessage.Ihave", "pb.ControlMessage.Iwant", "pb.ControlMessage.Graft", "pb.ControlMessage.Prune", "pb.ControlMessage.Idontwant"}
+			contentPred := func(name string) (bool, bool) {
+				fn := p.Fn(name)
+				if fn == nil || fn.Body == nil || fn.Type.Results == nil || len(fn.Type.Results.List) != 1 {
+					return false, false
+				}
+				if t := fn.Info().TypeOf(fn.Type.Results.List[0].Type); t == nil || t.String() != "bool" {
+					return false, false
+				}
+				read := map[string]bool{}
+				ast.Inspect(fn.Body, func(x ast.Node) bool {
+					if se, ok := x.(*ast.SelectorExpr); ok {
+						v := p.R(fn).Val(se)
+						for _, cf := range contentFields {
+							if v.IsField(cf) {
+								read[cf] = true
+							}
+						}
+					}
+					return true
+				})
+				if os.Getenv("PSCHECK_DEBUG_C11") != "" {
+					fmt.Fprintln(os.Stderr, "contentPred", name, "read", read)
+				}
+				if len(read) != len(contentFields) {
+					return false, false
+				}
+				// polarity: the constant returned where messages are present
+				hasMsgs := AtomCmp("len(Publish) > 0", func(v *V) bool {
+					return v.Kind == "len" && len(v.Args) == 1 && v.Args[0].IsField("pb.RPC.Publish")
+				}, ">", isZero)
+				// polarity: the constant returned where "no messages" is known (the final fall-through return):
+				// a predicate that answers false there answers true for content
+				pol, found := false, false
+				if n := len(fn.Body.List); n > 0 {
+					if r, ok := fn.Body.List[n-1].(*ast.ReturnStmt); ok && len(r.Results) == 1 {
+						rv := p.R(fn).Val(r.Results[0])
+						if okd, _ := p.DomAny(fn, r, AtomWant{hasMsgs, false}); okd && (rv.IsConst("true") || rv.IsConst("false")) {
+							pol, found = rv.IsConst("false"), true
+						}
+					}
+				}
+				if os.Getenv("PSCHECK_DEBUG_C11") != "" {
+					fmt.Fprintln(os.Stderr, "contentPred", name, "found", found, "pol", pol)
+				}
+				return found, pol
+			}
 			nonEmptyOf := func(fn *Func, arg ast.Expr) Atom {
 				av := p.R(fn).Val(arg)
-				return AtomCmp("fragment.Size() == 0", func(v *V) bool {
-					return (v.IsCall("pb.(*RPC).Size") || v.IsCall("(*RPC).Size")) && len(v.Args) == 1 && v.Args[0].Equal(av)
-				}, "==", isZero)
+				return Atom{Desc: "fragment has no content", Match: func(g *Graph, e ast.Expr) (bool, bool) {
+					v := g.P.R(g.F).Val(e)
+					if v == nil || v.Kind != "call" || len(v.Args) != 1 {
+						return false, false
+					}
+					a0 := v.Args[0]
+					if a0.Kind == "unop" && a0.Name == "&" {
+						a0 = a0.Args[0]
+					}
+					if !a0.Equal(av) {
+						return false, false
+					}
+					ok, trueMeansContent := contentPred(v.Name)
+					if !ok {
+						return false, false
+					}
+					return true, !trueMeansContent
+				}}
 			}
 			cc := p.ConsumerCalls(lit)
 			if len(cc) == 0 {
@@ -581,7 +651,7 @@ func runC11(c *RuleCtx) {
 				if i > 0 {
 					suffix = "#" + itoa(i+1)
 				}
-				c.Check(guarded, "R11.6", split.Name, "consumer called only with a non-empty RPC"+suffix, cs.Call, "guarded by Size() != 0", "an empty RPC can be handed to the consumer (it would be queued and sent): in front of an element that cannot fit by itself the accumulated fragment is empty: "+why)
+				c.Check(guarded, "R11.6", split.Name, "consumer called only with a non-empty RPC"+suffix, cs.Call, "guarded by a test of the fragment's content", "an RPC without content can be handed to the consumer (it would be queued and sent): in front of an element that cannot fit by itself the accumulated fragment is empty, and a fragment holding only an empty control message has a non-zero Size(), so a size test does not catch it: "+why)
 			}
 			c.Min["R11.6"] = 1
 		}
@@ -646,7 +716,9 @@ func runC11(c *RuleCtx) {
 			arg := p.R(f).Val(cs.Call.Args[0])
 			inSplit := len(p.EnclosingLoops(cs.Call)) > 0
 			if inSplit {
-				over := AtomCmp("fragment.Size() > maxMessageSize", func(v *V) bool { return isSize(v) && len(v.Args) == 1 && !(v.Args[0].Kind == "var" && v.Args[0].Obj == paramObj(f, 1)) }, ">", maxF)
+				over := AtomCmp("fragment.Size() > maxMessageSize", func(v *V) bool {
+					return isSize(v) && len(v.Args) == 1 && !(v.Args[0].Kind == "var" && v.Args[0].Obj == paramObj(f, 1))
+				}, ">", maxF)
 				ok, why := p.DomAny(f, cs.Call, AtomWant{over, false})
 				c.Check(ok, "R11.3", f.Name, "fragment sent only if not over the limit", cs.Call, why, "an oversized fragment can be queued: "+why)
 				for _, e := range g.AtomEdges(over, true) {
@@ -692,7 +764,9 @@ func runC11(c *RuleCtx) {
 				}
 				_ = arg
 			} else {
-				fits := AtomCmp("out.Size() < maxMessageSize", func(v *V) bool { return isSize(v) && len(v.Args) == 1 && v.Args[0].Kind == "var" && v.Args[0].Obj == paramObj(f, 1) }, "<", maxF)
+				fits := AtomCmp("out.Size() < maxMessageSize", func(v *V) bool {
+					return isSize(v) && len(v.Args) == 1 && v.Args[0].Kind == "var" && v.Args[0].Obj == paramObj(f, 1)
+				}, "<", maxF)
 				ok, why := p.DomAny(f, cs.Call, AtomWant{fits, true})
 				c.Check(ok, "R11.3", f.Name, "unsplit send only below the limit", cs.Call, why, "an RPC can be queued whole without `Size() < maxMessageSize`: "+why)
 			}
@@ -740,6 +814,7 @@ func runC11(c *RuleCtx) {
 		}
 		c.Check(!cleared["Graft"] && !cleared["Prune"] && cleared["Ihave"] && cleared["Iwant"] && cleared["Idontwant"], "R11.4", f.Name, "retries keep GRAFT/PRUNE and drop gossip", f.Decl, "clears Ihave/Iwant/Idontwant only", "pushControl clears the wrong fields")
 	}
+	checkHelloBounded(c)
 	c.Min["R11.1"] = 24
 	c.Min["R11.2"] = 3
 	c.Min["R11.3"] = 4
@@ -795,4 +870,45 @@ func sameIfBody(p *Prog, a, b ast.Node) bool {
 		return a.Pos() < b.Pos()
 	}
 	return false
+}
+
+// R11.7: the first message on a new outbound stream — the hello packet with every subscription and relay —
+// does not travel through the router's sendRPC: the event loop hands it to the writer on the FirstMessage
+// channel. For "an outbound RPC that exceeds the maximum message size is split" to cover it, what is sent on
+// that channel must come out of RPC.split or be behind a size test against the limit.
+func checkHelloBounded(c *RuleCtx) {
+	p := c.P
+	f := c.MustFn("R11.7", fnProcessLoop)
+	if f == nil {
+		return
+	}
+	n := 0
+	inspectNoLit(f.Body, func(x ast.Node) bool {
+		s, ok := x.(*ast.SendStmt)
+		if !ok {
+			return true
+		}
+		cv := p.R(f).Val(s.Chan)
+		if cv == nil || cv.Kind != "field" || !strings.HasSuffix(cv.Name, ".FirstMessage") {
+			return true
+		}
+		n++
+		split := false
+		for _, ch := range p.R(f).Sources(s.Value) {
+			if ch.Leaf != nil && ch.Leaf.Has(func(v *V) bool { return v.IsCall("(*RPC).split") }) {
+				split = true
+			}
+		}
+		sv := p.R(f).Val(s.Value)
+		small := AtomCmp("hello.Size() < maxMessageSize", func(v *V) bool {
+			return (v.IsCall("pb.(*RPC).Size") || v.IsCall("(*RPC).Size")) && len(v.Args) == 1 && v.Args[0].Equal(sv)
+		}, "<", func(v *V) bool { return v.IsField("PubSub.maxMessageSize") })
+		bounded, _ := p.DomAny(f, s, AtomWant{small, true})
+		c.Check(split || bounded, "R11.7", f.Name, "hello packet bounded or split before it is written", s, "split / size-tested", "the hello packet (all subscriptions and relays of the node in one RPC) is handed to the stream writer whole, without RPC.split and without a size test against maxMessageSize: with enough topics it exceeds the limit, the remote reader resets the stream on every attempt and the peer never learns any of the node's topics")
+		return true
+	})
+	if n == 0 {
+		c.Undecided("R11.7", f.Name, "hello send", f.Decl, "no send on a FirstMessage channel found (anchor drift)")
+	}
+	c.Min["R11.7"] = 1
 }
